@@ -25,7 +25,7 @@ def _worker(job):
     logging.disable(logging.CRITICAL)
     import signal
 
-    class _InstanceTimeout(Exception):
+    class _InstanceTimeout(BaseException):  # not an Exception: must not be mistaken for an outcome of the code under contract
         pass
 
     def _alarm(signum, frame):
